@@ -265,6 +265,47 @@ def run(ctx):  # noqa: C901, PLR0912, PLR0915
     ctx.ob('C14.R6', 'unknown rule matches nothing', bool(fall) and all(
         g.symbolic_text(n, n.stmt.value) == 'False' for n in fall if n.stmt.value is not None) and
         all(n.stmt.value is not None for n in fall), 'an unknown matching rule matches nothing', fi=ms)
+    # what the bundled discovery schema lets through is what the message classes can hold: an element that the Python class treats
+    # as always present (no is_optional) is required by the XSD too - otherwise a Hello without MetadataVersion passes validation,
+    # is stored with version None and every later comparison `new > None` raises (the entry is never updated again)
+    import xml.etree.ElementTree as ET
+    xsd_path = repo.root / 'src' / 'sdc11073' / 'xsd' / 'wsdd-discovery-1.1-schema-os.xsd'
+    XSN = '{http://www.w3.org/2001/XMLSchema}'
+    xsd_opt = {}
+    for ct in ET.parse(xsd_path).getroot().iter(f'{XSN}complexType'):
+        for el in ct.iter(f'{XSN}element'):
+            nm_ = (el.get('ref') or el.get('name') or '').split(':')[-1]
+            xsd_opt[(ct.get('name'), nm_)] = el.get('minOccurs') == '0'
+    wt = repo.module('sdc11073.xml_types.wsd_types')
+    n_decl = 0
+    for cls_ in [x for x in wt.tree.body if isinstance(x, ast.ClassDef)]:
+        for st in cls_.body:
+            if isinstance(st, ast.Assign) and isinstance(st.value, ast.Call) and isinstance(st.targets[0], ast.Name) and \
+                    st.value.args and isinstance(st.value.args[0], ast.Call) and call_name(st.value.args[0]) == 'wsd_tag':
+                member = st.targets[0].id
+                if (cls_.name, member) not in xsd_opt or 'List' in (call_name(st.value) or ''):
+                    continue
+                n_decl += 1
+                py_opt = any(k.arg == 'is_optional' and isinstance(k.value, ast.Constant) and k.value.value is True
+                             for k in st.value.keywords)
+                okd = py_opt or not xsd_opt[(cls_.name, member)]
+                ctx.ob('C14.R2', f'{cls_.name}.{member}: required in the schema as in the class', okd,
+                       f'{cls_.name}.{member}: optional={py_opt} in the class, minOccurs=0 is {xsd_opt[(cls_.name, member)]} in the schema'
+                       if okd else
+                       f'{cls_.name}.{member} is declared as always present, but the discovery schema allows it to be absent: such a '
+                       f'message passes validation and is stored with {member}=None - later comparisons with it raise', fi=None,
+                       where=f'sdc11073.xml_types.wsd_types.{cls_.name}', line=st.lineno)
+    ctx.floor('C14.R2', n_decl, 4, 'discovery message members compared with the schema')
+    # the MatchBy attribute of a parsed Probe is a plain string: the members of the enum it is compared with are strings too
+    mb = next((ci for q_, ci in repo.classes.items() if ci.name == 'MatchBy' and q_.startswith('sdc11073.wsdiscovery')), None)
+    if mb is None:
+        raise AnalysisError('C14.R6: MatchBy not found')
+    bases = [unparse(b).split('.')[-1] for b in mb.node.bases]
+    ok_mb = 'str' in bases or 'StrEnum' in bases
+    ctx.ob('C14.R6', 'MatchBy members compare equal to their URI', ok_mb,
+           'MatchBy is a str enum: the matching rule named in a Probe (a string) selects its member' if ok_mb else
+           f'MatchBy{tuple(bases)} is no str enum any more: the MatchBy attribute of a received Probe (a string) equals no member, '
+           f'match_scope falls through to False and a Probe that names its rule explicitly is never answered', fi=ms)
     uri_rules = [n for n in walk_no_nested(ms.node) if isinstance(n, ast.If) and 'MatchBy.uri' in unparse(n.test)]
     ok = bool(uri_rules) and all(x in unparse(uri_rules[0].test) for x in ('MatchBy.uri', "''", 'None'))
     ctx.ob('C14.R6', 'default rule is rfc3986', ok, 'an absent MatchBy selects the RFC 3986 rule', fi=ms)
